@@ -101,9 +101,9 @@ Lemma case_item_matches_spec subject pats asts :
   item_parsed pats asts ->
   case_item_matches subject pats = Some (item_matches_b subject asts).
 Proof.
-  intros H. induction H as [|p a pats asts [Hp Hsw] Hrest IH]; [reflexivity|].
+  intros H. induction H as [|p a pats asts Hp Hrest IH]; [reflexivity|].
   cbn [case_item_matches item_matches_b existsb].
-  pose proof (case_pattern_correct_closed p a subject Hp Hsw) as Hc.
+  pose proof (case_pattern_correct_any p a subject Hp) as Hc.
   destruct (compile case_config p) as [b|e| |]; try contradiction.
   - destruct (pat_is_match case_config b subject) eqn:Em.
     + assert (matches_b a subject = true) by (apply matches_b_iff, Hc; reflexivity).
